@@ -21,7 +21,7 @@ func init() {
 			"for every put* method the sizing pass (prepEncoder) and the writing pass (realEncoder) account for the same number of bytes, compared as symbolic linear forms per argument condition (C09.prep-real); length and CRC fields are written and checked over the same byte range with the same polynomial per container (C09.crc-len, the polynomial via C09.mirror tokens). " +
 			"no encoding step whose error is non-nil is answered with `return nil` or ignored (C09.enc-err, 338 steps). " +
 			"NOT covered: value-level equality (which bytes), compression codecs, varint arithmetic, agreement with the Kafka specification itself.",
-		Rules: []func(*Ctx){c09Mirror, c09Order, c09Balance, c09Keys, c09PrepReal, c09Null, c09CrcLen, c09EncErr, c09EarlyAccept},
+		Rules: []func(*Ctx){c09Mirror, c09Order, c09Balance, c09Keys, c09PrepReal, c09Null, c09CrcLen, c09EncErr, c09EarlyAccept, c09FreshElement},
 	})
 }
 
@@ -941,4 +941,51 @@ func c09EarlyAccept(c *Ctx) {
 				"the decoder returns successfully as soon as an array length is 0, but further fields follow the array (on the other branch they are read after the loop): a value with an empty array is encoded with those fields and cannot be decoded again — the frame is refused with \"invalid length\"", nil)
 		}
 	}
+}
+
+// C09.fresh-element: every decoded element is its own object.
+func c09FreshElement(c *Ctx) { freshElementRule(c, 60, nil) }
+
+// c04FreshElement / c03FreshElement: the same rule restricted to the files the property is anchored in.
+func c04FreshElement(c *Ctx) {
+	freshElementRule(c, 1, []string{"produce_response.go", "produce_request.go", "produce_set.go", "async_producer.go"})
+}
+
+func c03FreshElement(c *Ctx) {
+	freshElementRule(c, 5, []string{"fetch_response.go", "fetch_request.go", "consumer.go", "records.go", "record_batch.go", "record.go", "message_set.go", "message.go"})
+}
+
+func freshElementRule(c *Ctx, floor int, files []string) {
+	p := c.P
+	rule := "C09.fresh-element"
+	c.Doc(rule, "in every loop of the package that stores a pointer to a struct variable into a map entry or slice element, the struct is allocated inside that loop (one object per slot), or the loop never writes it: a variable hoisted out of the loop — or a `for _, x := range` variable, which is one variable per loop in this module's Go version — whose address is stored on every iteration makes all slots alias the last element decoded (decode(encode(v)) ≠ v; a produce response reports another partition's offset; only the last aborted transaction survives)")
+	n := 0
+	for _, fn := range p.Fns {
+		if rootOf(fn).Pkg != p.Sarama || fn.Blocks == nil {
+			continue
+		}
+		if files != nil {
+			in := false
+			for _, f := range files {
+				if p.inFile(fn, f) {
+					in = true
+				}
+			}
+			if !in {
+				continue
+			}
+		}
+		for _, f := range sharedElementFindings(fn) {
+			n++
+			c.Check(!f.shared, rule, fn, "slot:"+describeShort(f.obj), f.at, "a fresh object per slot", "the address of one variable ("+f.obj.Comment+", allocated outside the loop and rewritten in it) is stored into "+f.what+" on every iteration: all entries end up pointing at the same object holding the last element's values", nil)
+		}
+	}
+	c.Floor(rule, floor)
+}
+
+func describeShort(a *ssa.Alloc) string {
+	if a.Comment != "" {
+		return a.Comment
+	}
+	return "object"
 }
